@@ -105,6 +105,17 @@ PROPS = {
                      "connection transcripts and close decisions (routed ids renamed by order of appearance), and each execution also agrees with the reference "
                      "model (zero length skipped, over-long length ends the connection, incomplete JSON text rejected). evaluations counts executions (base + "
                      "variants). Non-trivial = at least one alternative schedule differs from the base and >=3 messages were sent; distinct = scenario hash."),
+    "C10": scen("c10", ["default", "tiny"], level="fault_enumeration",
+                quick=dict(cases=1500, size=60), thorough=dict(cases=40000, size=120, budget_s=3000),
+                rule="rapidcheck-generated sessions in which a publisher's changes fan out to 6+ subscriptions on a raw and a WebSocket reader (plus get/info/"
+                     "batch responses and routed traffic), crossed with generated kernel write behaviour per connection: accept everything, accept only the first "
+                     "n bytes of the gathered buffers (n from 1 to 600: inside the 4-byte prefix / WebSocket header, inside the payload, inside the pending buffer), "
+                     "EAGAIN, EPIPE/ECONNRESET, and later drain events; write buffer 5120 (shipped) and 640 bytes (tiny). Oracle: the frames the daemon generated "
+                     "are read off the buffers it passes to writev (pending bytes first, new frame after them); the byte stream the kernel accepted must be the "
+                     "in-order concatenation of whole generated frames - a frame may be missing only as a whole - optionally followed by a proper prefix of a later "
+                     "frame when the connection was closed afterwards or bytes are still queued; at most 64 writev calls per connection and loop iteration; no "
+                     "I/O on a blocking descriptor. Non-trivial = some write accepted a proper prefix, a later drain happened and >=10 frames were generated; "
+                     "distinct = scenario hash."),
     "C12": scen("c12", ["default"],
                 quick=dict(cases=1500, size=60), thorough=dict(cases=40000, size=100, budget_s=3000),
                 rule="rapidcheck-generated valid upgrades (header order and case, extra headers incl. an extension offer, random 16-byte keys, protocol lists "
